@@ -1,5 +1,6 @@
 import CV.Model.Range
 import CV.Model.TableModel
+import CV.Model.RangeTable
 import CV.Spec.RangeSpec
 import CV.Driver.Util
 /-!
@@ -58,6 +59,7 @@ def decMany (W S : Nat) : Decoder â†’ List (Nat Ã— Nat Ã— List Nat) â†’ List Nat
     | .ok b => (showList acc.reverse ++ " " ++ showBool b, false)
     | .error f => (faultStr f, true)
   | d, (b, p, cdf) :: rest, acc =>
+    if !strictCdfB p cdf then ("bad-table", true) else
     match decode (cfgOf W S b p) (tableModel cdf) d with
     | .ok (s, d') => decMany W S d' rest (s :: acc)
     | .error .invalidData => (showList acc.reverse ++ " invalid_data", false)
@@ -76,6 +78,7 @@ def doInit (W S : Nat) (kind : String) (seg : List String) : Option (Option St) 
       let r â† parseHex r
       let n â† parseHex n
       let first â† parseHex first
+      if n â‰¥ 2^usizeBits then none else
       match stateNew c lo r with
       | .ok (some _) =>
         let sit := if n = 0 then Situation.normal else .inverted n first
@@ -138,17 +141,20 @@ def encOp (W S : Nat) (st : St) (e : Encoder) (seg : List String) : Option (St Ã
   | ["nb"] => some (mOut st (numBits c e) (fun k => (st, toHex k)))
   | ["empty"] => some (st, showBool (isEmpty c e), false)
   | ["pos"] =>
-      let (n, lo, r) := e.pos
-      some (st, toHex n ++ " " ++ toHex lo ++ " " ++ toHex r, false)
+      some (mOut st e.pos (fun (n, lo, r) =>
+        (st, toHex n ++ " " ++ toHex lo ++ " " ++ toHex r)))
   | ["snap"] =>
-      let (n, lo, r) := e.pos
-      some ({ st with snaps := st.snaps ++ [(n, lo, r)] },
-            toHex n ++ " " ++ toHex lo ++ " " ++ toHex r, false)
+      some (mOut st e.pos (fun (n, lo, r) =>
+        ({ st with snaps := st.snaps ++ [(n, lo, r)] },
+         toHex n ++ " " ++ toHex lo ++ " " ++ toHex r)))
   | ["raw"] => some (st, showEnc e, false)
   | ["clone"] => some (st, "ok", false)
   | ["clear"] => some ({ st with mode := .enc (clear c e), hist := none }, "ok", false)
   | ["intodec"] =>
       some (mOut st (intoDecoder c e) (fun d => ({ st with mode := .dec d }, "ok")))
+  | ["expect", ws] => do
+      let l â† parseList ws
+      some (mOut st (intoCompressed c e) (fun got => (st, if got == l then "ok" else "differs")))
   | ["spec"] =>
       match st.hist with
       | some (pre, l) => some (st, showList (pre ++ RangeSpec.words W S l.reverse), false)
@@ -172,6 +178,7 @@ def decOp (W S : Nat) (st : St) (d : Decoder) (seg : List String) : Option (St Ã
       let b â† parseHex b
       let p â† parseHex p
       let t â† parseList cdf
+      if !strictCdfB p t then some (st, "bad-table", true) else
       match decode (cfgOf W S b p) (tableModel t) d with
       | .ok (s, d') => some ({ st with mode := .dec d' }, toHex s, false)
       | .error .invalidData => some (st, "invalid_data", false)
@@ -291,6 +298,7 @@ def handle (segs : List (List String)) : String :=
     match parseHex w, parseHex s, parseHex b, parseHex p, parseList los, parseList rs,
           parseList pts, parseList cdf with
     | some W, some S, some B, some P, some los, some rs, some pts, some cdf =>
+      if !strictCdfB P cdf then "bad-table" else
       showDigest (decSweep W S B P los rs pts cdf)
     | _, _, _, _, _, _, _, _ => "bad-op"
   | _ => "bad-op"
